@@ -88,7 +88,7 @@ ContDecided ==
     /\ LET i == MinOf({j \in Honest : DecidedCert(j)})
            rv == CHOOSE p \in (1..ContRounds) \X Values : Card({s \in Honest : CommSent(s, p[1], p[2])}) >= Q
            S  == {s \in Honest : CommSent(s, rv[1], rv[2])}
-       IN /\ Apply(i, [st[i] EXCEPT !.decided = TRUE, !.dval = rv[2], !.round = rv[1], !.dround = rv[1], !.dsigners = S,
+       IN /\ Apply(i, [st[i] EXCEPT !.decided = TRUE, !.dval = rv[2], !.round = rv[1], !.dround = rv[1], !.cround = rv[1], !.cval = rv[2], !.dsigners = S,
                                     !.comm = @ \cup {[signer |-> s, round |-> rv[1], value |-> rv[2]] : s \in S}], {})
           /\ act' = [name |-> "ContDecided", to |-> i, round |-> rv[1], value |-> rv[2], signers |-> S]
     /\ NoByz
@@ -145,7 +145,7 @@ SyncCommit(i) ==
     /\ n.started /\ n.acc # NoProp /\ ~n.decided
     /\ AvailComm(i) = Honest
     /\ Apply(i, [n EXCEPT !.comm = {[signer |-> s, round |-> n.round, value |-> n.acc.value] : s \in Honest},
-                         !.decided = TRUE, !.dval = n.acc.value, !.dround = n.round, !.dsigners = Honest,
+                         !.decided = TRUE, !.dval = n.acc.value, !.dround = n.round, !.cround = n.round, !.cval = n.acc.value, !.dsigners = Honest,
                          !.dlocal = TRUE, !.dfrom = n.acc.from], {})
     /\ NoByz
     /\ act' = [name |-> "CommitQuorum", to |-> i, signers |-> Honest, round |-> n.round, value |-> n.acc.value]
